@@ -19,6 +19,7 @@ from gen import nontrivial, signature, strip
 from pipeline import ImplFns, _ext_tensor_json, explicit_case, materialise_case, model_layout, model_solve
 from props.simcommon import base_out
 
+CANARY = True
 RULE = ("cases = generated dyadic specifications with shuffled declaration orders and pairwise distinct axis sizes (restricted and "
         "unrestricted discrete states, continuous states); distinct = structural signature; evaluations = array entries whose state "
         "(by the layout contract) was re-valued by the specification-level enumeration")
